@@ -159,13 +159,18 @@ class PcaChain(MetropolisChain):
             while True:
                 prop = theta0 + v * p.sigma * self.rng.normal()
                 if self.bounds is not None and not self.bounds.inside(prop):
-                    # the density is zero outside the bounds: the proposal is rejected.
-                    # (Folding it back coordinate by coordinate, as for axis-parallel
-                    # steps, takes it off the line through theta0 along v - a move that
-                    # cannot be reversed by a step along v - and the chain then no
-                    # longer leaves the target distribution invariant.)
-                    p.submit_accept_prob(0.0)
-                    continue
+                    if self.bounds.inside(theta0):
+                        # the density is zero outside the bounds: the proposal is rejected.
+                        # (Folding it back coordinate by coordinate, as for axis-parallel
+                        # steps, takes it off the line through theta0 along v - a move that
+                        # cannot be reversed by a step along v - and the chain then no
+                        # longer leaves the target distribution invariant.)
+                        p.submit_accept_prob(0.0)
+                        continue
+                    # the current point is itself outside the bounds (it can only have been
+                    # installed there through replace_last): fold the proposal inside, so
+                    # that the chain gets back into the bounds
+                    prop = self.bounds.reflect(prop)
                 p_new = self.posterior(prop) * self.inv_temp
 
                 if p_new > p_old:
